@@ -68,9 +68,15 @@ func (r *runner) run(stream string, d *dg.Design, ms *MetaSpec, strict bool) {
 	switch {
 	case out.Panic != "":
 		r.res.Count("eval_panic_" + stream)
+		if stream == "cover" {
+			r.fail(stream, d, Finding{"covering-design-lost:dsl-panic", "a hand-written covering design, which goa accepted and generated from, now makes the DSL evaluation panic: " + trunc(out.Panic, 300)})
+		}
 		return
 	case !out.Accepted:
 		r.res.Count("rejected_by_dsl_" + stream)
+		if stream == "cover" {
+			r.fail(stream, d, Finding{"covering-design-lost:rejected", "a hand-written covering design, which goa accepted and generated from, is now rejected: " + trunc(fmt.Sprint(out.Err), 300)})
+		}
 		return
 	}
 	for k := range schemeTypes {
@@ -82,6 +88,11 @@ func (r *runner) run(stream string, d *dg.Design, ms *MetaSpec, strict bool) {
 			// the service / transport generators fail before any document is built: not this
 			// property's business (accepted designs that do not generate belong to C01)
 			r.res.Count("not_generated_" + stage + "_stage_" + stream)
+			if stream == "cover" {
+				// ... except for the hand-written covering designs: they are known to generate, and
+				// without generated code there is neither a server nor a document to compare
+				r.fail(stream, d, Finding{"covering-design-lost:not-generated-" + stage + "-stage", "goa's " + stage + " generator now fails on a hand-written covering design: " + trunc(err.Error(), 300)})
+			}
 			return
 		}
 		r.res.Count("openapi_generator_error_" + stream)
